@@ -1423,6 +1423,9 @@ func main() {
 	ru.cf = &vx.CasesFile{Type: "case"}
 	var known []string
 	ru.directed(&known)
+	if mode == "c01" {
+		ru.somHistories(150)
+	}
 	for i := 0; i < *ntypes; i++ {
 		d := *depth
 		if i%4 == 0 {
